@@ -70,6 +70,12 @@ def execute(plan, scn):
     rewriter gave up is replayed with the step budget lifted (counterfactual, classification only):
     if the run is then clean it is attributed to known finding F4 (if listed for this property)."""
     run, viol = _execute_raw(plan, scn)
+    if viol and any(("OpTimeout" in v.detail or "MemoryError" in v.detail or "unwalkable" in v.oracle) for v in viol):
+        # a watchdog outcome depends on wall-clock time: report it only if a second execution agrees
+        run_b, viol_b = _execute_raw(plan, scn)
+        if not viol_b:
+            run.unconfirmed_timeouts = 1
+            viol = []
     if viol and run.gave_up and known_mod.listed(_known(), plan.prop, "F4"):
         from . import counterfactual as CF
         try:
@@ -112,6 +118,15 @@ def _chunk_worker(args):
     plan, tier, seed, start, stop, deadline_s = args
     faulthandler.enable()
     faulthandler.dump_traceback_later(deadline_s, exit=True)
+    try:
+        # a runaway structure (defect under test) must end in a MemoryError outcome, not in the OOM killer
+        import resource
+        soft, hard = resource.getrlimit(resource.RLIMIT_AS)
+        limit = int(os.environ.get("VERIF_WORKER_MEM_GB", "4")) << 30
+        if hard == resource.RLIM_INFINITY or limit <= hard:
+            resource.setrlimit(resource.RLIMIT_AS, (limit, hard))
+    except (ImportError, ValueError, OSError):
+        pass
     mod = plan.sample_mod[tier]
     stats = {}
     digests = []
